@@ -1,7 +1,7 @@
 """tables for C20 (src/irclib.py, plugins/Owner/plugin.py, plugins/Misc/plugin.py, src/plugin.py)"""
 import ast
 from gen_tables import *  # noqa: F401,F403
-from gen_tables import table, tree, find_def, find_class, need, cstr, clist
+from gen_tables import table, tree, find_def, find_class, need, cstr, clist, module_assign
 
 
 def _norm(node):
@@ -83,6 +83,51 @@ def gen_T20():
          'Owner.reload: the try body is no longer the import phase alone')
     eb = ' '.join(_norm(x) for x in t.orelse)
     need('callback.die()' in eb and 'plugin.loadPluginClass(irc, module)' in eb, 'Owner.reload: else clause changed')
+    # --- every write to self.callbacks in class Irc: the list object is shared by all Irc objects (module-level
+    # _callbacks, default argument of Irc.__init__) and must never be rebound outside __init__
+    irc_cls = find_class(it, 'Irc')
+    init = find_def(it, '__init__', 'Irc')
+    defaults = dict(zip([a.arg for a in init.args.args][-len(init.args.defaults):], init.args.defaults))
+    need('callbacks' in defaults and _norm(defaults['callbacks']) == '_callbacks',
+         'Irc.__init__: callbacks no longer defaults to the module-level _callbacks list')
+    need(_norm(module_assign(it, '_callbacks')) == '[]', 'irclib._callbacks is not a module-level empty list')
+    MUTATORS = ('append', 'remove', 'insert', 'extend', 'pop', 'sort', 'reverse', 'clear')
+
+    def is_cbs(n):
+        return isinstance(n, ast.Attribute) and n.attr == 'callbacks' and isinstance(n.value, ast.Name) and n.value.id == 'self'
+    writes = []
+    for meth in [n for n in irc_cls.body if isinstance(n, ast.FunctionDef)]:
+        for n in ast.walk(meth):
+            targets = []
+            if isinstance(n, ast.Assign):
+                targets = n.targets
+            elif isinstance(n, (ast.AugAssign, ast.AnnAssign)):
+                targets = [n.target]
+            elif isinstance(n, ast.Delete):
+                targets = n.targets
+            elif isinstance(n, (ast.For, ast.comprehension)):
+                targets = [n.target]
+            elif isinstance(n, (ast.With,)):
+                targets = [i.optional_vars for i in n.items if i.optional_vars is not None]
+            flat = []
+            for t in targets:
+                flat += list(t.elts) if isinstance(t, (ast.Tuple, ast.List)) else [t]
+            for t in flat:
+                if is_cbs(t):
+                    writes.append((meth.name, 0 if (meth.name == '__init__' and isinstance(n, ast.Assign)) else 3, n.lineno))
+                elif isinstance(t, ast.Subscript) and is_cbs(t.value):
+                    writes.append((meth.name, 1, n.lineno))
+            if isinstance(n, ast.Call) and isinstance(n.func, ast.Attribute) and is_cbs(n.func.value) and n.func.attr in MUTATORS:
+                writes.append((meth.name, 2, n.lineno))
+            if isinstance(n, ast.Call) and _norm(n.func) == 'setattr' and n.args and _norm(n.args[0]) == 'self':
+                need(False, 'Irc.%s uses setattr(self, ...): cannot tell whether self.callbacks is rebound' % meth.name)
+    need(sum(1 for w in writes if w[1] == 0) == 1, 'Irc.__init__ no longer binds self.callbacks exactly once')
+    rebinds = [w for w in writes if w[1] == 3]
+    need(not rebinds, 'self.callbacks (the list shared by all Irc objects) is rebound in %s'
+         % ', '.join('Irc.%s line %d' % (w[0], w[2]) for w in rebinds))
     out = 'Definition OWNER_NAME : list N := %s.\n' % cstr('Owner')
+    out += ('(* writes to self.callbacks in class Irc: (method, kind); kind 0 = the binding in __init__, 1 = slice/index assignment, '
+            '2 = in-place list method, 3 = rebinding *)\n')
+    out += 'Definition CALLBACKS_WRITES : list (list N * N) := %s.\n' % clist('(%s, %d)' % (cstr(w[0]), w[1]) for w in writes)
     out += 'Definition RELOAD_RESTORES_ON_IMPORT_FAILURE : bool := true.\n'
     return 'plugins/Owner/plugin.py, plugins/Misc/plugin.py, src/irclib.py', out
